@@ -18,10 +18,10 @@ theorem cvbrStep_spec (v res nb want : Int) (sil : Bool) (hv : 128 ≤ v) (hr0 :
   dsimp only
   cases sil <;> simp only [Bool.false_eq_true, if_false, if_true] <;> (split <;> dsimp only <;> omega)
 
-/-- If the rate was lowered (reservoir above the new `vbr_rate`), the reservoir shrinks by at least
-    `vbr_rate − 128` per frame until it is back inside. -/
+/-- If the rate was lowered (reservoir above the new `vbr_rate`), the reservoir is back inside
+    `[0, vbr_rate]` after the frame or has shrunk by at least `vbr_rate − 128`. -/
 theorem cvbrStep_drain (v res nb want : Int) (sil : Bool) (hv : 128 ≤ v) (hr1 : v < res) (hnb : 2 ≤ nb) :
-    (cvbrStep v res nb want sil).1 ≤ res + 128 - v ∧ 0 ≤ (cvbrStep v res nb want sil).1 := by
+    (cvbrStep v res nb want sil).1 ≤ max v (res + 128 - v) ∧ 0 ≤ (cvbrStep v res nb want sil).1 := by
   unfold cvbrStep cvbrMaxAllowed
   dsimp only
   cases sil <;> simp only [Bool.false_eq_true, if_false, if_true] <;> (split <;> dsimp only <;> omega)
